@@ -446,8 +446,6 @@ type session struct {
 	panicv any
 
 	start, end int64
-	resolved   int64 // size of the checkpoint the upload is checked against (= end)
-	npkg       int   // packages processed so far
 }
 
 var (
